@@ -337,6 +337,57 @@ type cfgResult struct {
 	norder  []string
 }
 
+type aggRec struct {
+	vrec
+	ci int
+}
+
+type aggSample struct {
+	ci int
+	v  any
+}
+
+// aggregate folds the findings of finished configurations; the result does not depend on
+// the order of folding (counts add up, the kept case is the one of the lowest index).
+type aggregate struct {
+	mu      sync.Mutex
+	viols   map[string]*aggRec
+	notes   map[string]*aggRec
+	samples []aggSample
+}
+
+func newAggregate() *aggregate {
+	return &aggregate{viols: map[string]*aggRec{}, notes: map[string]*aggRec{}}
+}
+
+func (a *aggregate) fold(ci int, cr *cfgResult) {
+	if len(cr.order) == 0 && len(cr.norder) == 0 && len(cr.samples) == 0 {
+		return
+	}
+	a.mu.Lock()
+	defer a.mu.Unlock()
+	put := func(m map[string]*aggRec, v *vrec) {
+		if o, ok := m[v.sig]; ok {
+			n := o.count + v.count
+			if ci < o.ci {
+				o.vrec, o.ci = *v, ci
+			}
+			o.count = n
+			return
+		}
+		m[v.sig] = &aggRec{*v, ci}
+	}
+	for _, sig := range cr.order {
+		put(a.viols, cr.viols[sig])
+	}
+	for _, sig := range cr.norder {
+		put(a.notes, cr.notes[sig])
+	}
+	for _, s := range cr.samples {
+		a.samples = append(a.samples, aggSample{ci, s})
+	}
+}
+
 func (cr *cfgResult) observe(sig string, cs any) {
 	if cr.notes == nil {
 		cr.notes = map[string]*vrec{}
@@ -408,17 +459,6 @@ func main() {
 	}
 	olists := lists(menu, 2)
 	listRule := "ordered AllowOrigins lists of <=2 distinct entries"
-	if !r.Quick() {
-		// plus every 3-entry list in menu order (order effects are covered by the ordered pairs)
-		for i := range menu {
-			for j := i + 1; j < len(menu); j++ {
-				for k := j + 1; k < len(menu); k++ {
-					olists = append(olists, []string{menu[i], menu[j], menu[k]})
-				}
-			}
-		}
-		listRule += " plus all 3-entry combinations in menu order"
-	}
 	var cfgs []cfgT
 	for _, ol := range olists {
 		for _, fn := range funcs {
@@ -437,6 +477,24 @@ func main() {
 			}
 		}
 	}
+	extra := 0
+	if !r.Quick() {
+		// plus every 3-entry list (menu order; order effects are covered by the ordered pairs),
+		// crossed only with the dimensions that interact with origin matching
+		for i := range menu {
+			for j := i + 1; j < len(menu); j++ {
+				for k := j + 1; k < len(menu); k++ {
+					for _, fn := range funcs {
+						for _, cred := range []bool{false, true} {
+							cfgs = append(cfgs, cfgT{[]string{menu[i], menu[j], menu[k]}, fn, cred, true, 60, []string{"X-A", "Content-Type"}, []string{"X-Out", "ETag"}, nil})
+							extra++
+						}
+					}
+				}
+			}
+		}
+		listRule += fmt.Sprintf("; plus %d configurations = all 3-entry combinations x AllowOriginsFunc x AllowCredentials with the other options fixed", extra)
+	}
 	type group struct{ method, acrm, acrh, pn string }
 	var groups []group
 	for _, m := range []string{"GET", "POST", "OPTIONS"} {
@@ -449,10 +507,15 @@ func main() {
 		}
 	}
 
-	results := make([]cfgResult, len(cfgs))
+	agg := newAggregate()
 	r.Parallel(len(cfgs), func(ci int, l *core.Local) {
+		if r.Expired() {
+			r.Cap("wall-clock budget reached before all configurations were explored")
+			return
+		}
 		c := cfgs[ci]
-		cr := &results[ci]
+		cr := &cfgResult{}
+		defer agg.fold(ci, cr)
 		t, rejected := build(c)
 		l.Add("configs", 1)
 		if rejected != "" {
@@ -620,29 +683,17 @@ func main() {
 		}
 	})
 
-	// deterministic merge of per-configuration findings
+	// deterministic merge: per signature the case of the lowest configuration index is kept
 	outside := map[string]map[string]any{}
-	for ci := range results {
-		cr := &results[ci]
-		for _, sig := range cr.order {
-			v := cr.viols[sig]
-			if o, ok := r.P.Violations[sig]; ok {
-				o.Count += v.count
-			} else {
-				r.P.Violations[sig] = &core.Violation{Signature: sig, What: v.what, Case: v.cs, Observed: v.obs, Expected: v.want, Count: v.count}
-			}
-		}
-		for _, s := range cr.samples {
-			r.Sample(s)
-		}
-		for _, sig := range cr.norder {
-			v := cr.notes[sig]
-			if o, ok := outside[sig]; ok {
-				o["count"] = o["count"].(int64) + v.count
-			} else {
-				outside[sig] = map[string]any{"count": v.count, "first_case": v.cs}
-			}
-		}
+	for sig, v := range agg.viols {
+		r.P.Violations[sig] = &core.Violation{Signature: sig, What: v.what, Case: v.cs, Observed: v.obs, Expected: v.want, Count: v.count}
+	}
+	for sig, v := range agg.notes {
+		outside[sig] = map[string]any{"count": v.count, "first_case": v.cs}
+	}
+	sort.Slice(agg.samples, func(i, j int) bool { return agg.samples[i].ci < agg.samples[j].ci })
+	for _, s := range agg.samples {
+		r.Sample(s.v)
 	}
 	for _, k := range []string{"mech_exact_permits", "mech_wildcard_permits", "mech_func_permits", "mech_preflight", "mech_star", "configs_rejected", "groups_varying_by_origin"} {
 		if r.P.Counters[k] == 0 {
@@ -668,7 +719,7 @@ func main() {
 			"rule": fmt.Sprintf("full product: %d configurations (%d %s from %q x AllowOriginsFunc %q x AllowCredentials x AllowPrivateNetwork x MaxAge{0,60,-1} x AllowHeaders{none,list} x ExposeHeaders{none,list} x AllowMethods{default,custom}; constructions that panic are counted as rejected and not explored) x %d requests (%d Origin values x method{GET,POST,OPTIONS} x Access-Control-Request-Method{absent,PUT} x Access-Control-Request-Headers %q x Access-Control-Request-Private-Network %q). A case is non-trivial when the request carries an Origin and the configuration does not allow all origins, i.e. the origin matching code decides the answer. Each response is judged by a reference policy written from the statement; Vary is judged per group of requests that differ only in Origin.",
 				len(cfgs), len(olists), listRule, menu, funcs, nreq, len(origins), acrhs, pns),
 			"observed_outside_statement": outside,
-			"bounds": map[string]any{"max_allow_origins_entries": len(olists[len(olists)-1]), "origin_menu": menu, "origin_values": len(origins), "origin_classes": oclasses,
+			"bounds": map[string]any{"max_allow_origins_entries": len(cfgs[len(cfgs)-1].Origins), "origin_menu": menu, "origin_values": len(origins), "origin_classes": oclasses,
 				"configs": len(cfgs), "requests_per_config": nreq},
 		},
 		Assumptions: []string{
